@@ -165,7 +165,8 @@ fn show_doc(d: &Document) -> String {
 
 /// Independent statement of a permitted type change of a field kept across an upgrade:
 /// identical, or — below arrays (same arity) / options / homogeneous maps (same key kind) — an
-/// explicitly keyed map that gained optional keys and / or lost keys.
+/// explicitly keyed map that gained optional keys and / or lost keys (the untyped map `Map({})` is
+/// not a keyed map: it may not gain keys).
 pub fn permitted_change(new: &FieldType, old: &FieldType) -> bool {
     use FieldType as T;
     match (new, old) {
@@ -176,6 +177,8 @@ pub fn permitted_change(new: &FieldType, old: &FieldType) -> bool {
             let wo = crate::r#gen::is_wildcard(o);
             match (wn, wo) {
                 (Some((kn, tn)), Some((ko, to))) => kn == ko && permitted_change(tn, to),
+                // the untyped map declares nothing and holds anything: it cannot be narrowed to keys
+                (None, None) if o.is_empty() && !n.is_empty() => false,
                 (None, None) => n.iter().all(|(k, tn)| match o.get(k) {
                     Some(to) => permitted_change(tn, to),
                     None => matches!(tn, T::Option(_)),
